@@ -34,6 +34,56 @@ DAYS = ["monday", "tuesday", "wednesday", "thursday", "friday", "saturday", "sun
 CORNER = "bp_h' == bp_c' >= T_max"
 
 
+# ----------------------------------------------------------------------------------------------------- time zones
+# a zone "spec" is a plain string (so that cases replay): an IANA name (pandas resolves it), or
+#   fixed:<minutes>[:<name>]  datetime.timezone        pytz:<name>  pytz         dateutil:<name>  dateutil tzfile
+SPECIAL_ZONES = ["fixed:-360", "dateutil:US/Central"]
+ALIASES = {"US/Pacific": "America/Los_Angeles", "UTC": "Etc/UTC", "America/New_York": "US/Eastern", "Asia/Kolkata": "Asia/Calcutta",
+           "Australia/Sydney": "Australia/NSW", "Europe/Berlin": "Europe/Berlin"}
+
+
+def tz_of(spec):
+    """spec -> what pandas takes as tz (a name or a tzinfo object)"""
+    import datetime
+    if spec.startswith("fixed:"):
+        parts = spec.split(":")
+        off = datetime.timedelta(minutes=int(parts[1]))
+        return datetime.timezone(off, parts[2]) if len(parts) > 2 else datetime.timezone(off)
+    if spec.startswith("pytz:"):
+        import pytz
+        return pytz.timezone(spec[5:])
+    if spec.startswith("dateutil:"):
+        import dateutil.tz
+        return dateutil.tz.gettz(spec[9:])
+    return spec
+
+
+def tz_text(spec):
+    """str() of the tzinfo a frame in that zone carries (what a stored document holds)"""
+    return str(pd.Timestamp("2023-01-01", tz=tz_of(spec)).tz)
+
+
+def tz_variants(spec):
+    """reporting zones offered to a model whose baseline zone is `spec`: the same zone through another tz implementation,
+    an alias / equal-but-renamed tzinfo, and a different zone.  [(label, spec)]"""
+    if spec.startswith("fixed:"):
+        mins = spec.split(":")[1]
+        return [("equal tzinfo, other name", "fixed:%s:CST" % mins), ("same offset, IANA", "Etc/GMT+6" if mins == "-360" else "UTC"),
+                ("different zone", "Asia/Kolkata")]
+    if spec.startswith("dateutil:"):
+        name = spec[9:]
+        alias = {"US/Central": "America/Chicago"}.get(name, name)
+        return [("equal tzfile, alias name", "dateutil:" + alias), ("same zone, zoneinfo", name), ("same zone, pytz", "pytz:" + name),
+                ("different zone", "Asia/Kolkata")]
+    out = [("same zone, pytz", "pytz:" + spec), ("same zone, dateutil", "dateutil:" + spec)]
+    if spec == "UTC":
+        out.append(("same zone, datetime.timezone.utc", "fixed:0:UTC"))
+    if ALIASES.get(spec, spec) != spec:
+        out.append(("alias name", ALIASES[spec]))
+    out.append(("different zone", "Asia/Kolkata" if spec != "Asia/Kolkata" else "US/Pacific"))
+    return out
+
+
 @contextlib.contextmanager
 def quiet():
     with contextlib.redirect_stdout(io.StringIO()):
@@ -257,15 +307,16 @@ def gen_doc(rng, k, splits, corner=False):
         if s["coefficients"]["hdd_beta"] == 0:
             s["coefficients"]["hdd_beta"] = -1.5
         subs[key] = s
+    zone = rng.choice(ZONES * 2 + SPECIAL_ZONES)
     err = {"wRMSE": rng.uniform(0, 5), "RMSE": rng.uniform(0, 5), "MAE": rng.uniform(0, 5),
            "CVRMSE": rng.choice([rng.uniform(0, 2), float("nan")]), "PNRMSE": rng.uniform(0, 2)}
     doc = {"submodels": subs,
-           "info": {"error": err, "baseline_timezone": rng.choice(ZONES),
+           "info": {"error": err, "baseline_timezone": tz_text(zone),
                     "disqualification": [gen_warning(rng) for _ in range(rng.choice([0, 0, 0, 1, 2]))],
                     "warnings": [gen_warning(rng) for _ in range(rng.choice([0, 1, 1, 2]))]},
            "settings": st}
     case = {"k": k, "profile": kind, "cls": "billing" if base == "billing" else "daily", "doc": doc, "tamper": None,
-            "corner": corner, "base": base, "user": u}
+            "corner": corner, "base": base, "user": u, "zone": zone}
     if not corner and k >= 26 and rng.random() < 0.22:
         how = rng.choice(TAMPERS)
         if how == "no-force" and base != "billing":
@@ -374,11 +425,12 @@ _DATA = {}
 
 
 def daily_data(cls_name, tz):
-    """a reporting-data object per (class, zone): 120 local days, temperatures -60 ... 140 F incl. two missing"""
+    """a reporting-data object per (class, zone spec): 120 local days, temperatures -60 ... 140 F incl. two missing"""
     key = (cls_name, tz)
     if key not in _DATA:
         import fitlib
         n = 120
+        tz = tz_of(tz)
         idx = pd.date_range("2023-01-01", periods=n, freq="D", tz=tz)
         T = np.linspace(-60.0, 140.0, n)
         T[[7, 51]] = np.nan
@@ -638,7 +690,8 @@ def constructor_made(cls, case):
     m.params = DailyModelParameters(submodels=copy.deepcopy(doc["submodels"]), settings=m.settings.model_dump(), info=info)
     mk = lambda ws: [EEMeterWarning(qualified_name=w["qualified_name"], description=w["description"], data=w["data"]) for w in ws]
     m.warnings, m.disqualification = mk(info["warnings"]), mk(info["disqualification"])
-    m.baseline_timezone = info["baseline_timezone"]
+    # fit() stores the tzinfo OBJECT of the baseline data (a reloaded model holds its str())
+    m.baseline_timezone = daily_data(case["cls"], case.get("zone") or info["baseline_timezone"])[1].tz
     m.error = info["error"]
     m.is_fitted = True
     return m
@@ -715,7 +768,7 @@ def run_docs(cases, seed):
                         break
             o["preds"] = preds
             o["closed_form_fail"] = cf_fail
-            tz = doc["info"]["baseline_timezone"]
+            tz = case.get("zone") or doc["info"]["baseline_timezone"]
             with quiet():
                 year = M.predict(daily_data(case["cls"], tz)[1], ignore_disqualification=True)
             o["days"] = day_rows(year)
@@ -725,6 +778,11 @@ def run_docs(cases, seed):
             sets = [("year", lambda: daily_data(case["cls"], tz)[1])]
             if case["k"] % 2 == 0:
                 sets.append(("sweep", lambda: daily_data(case["cls"], tz)[0]))
+            else:
+                # the same zone through another tzinfo (equal-but-renamed for the fixed-offset / dateutil baselines):
+                # the original holds a tzinfo object, the reloaded model a string -- they must decide alike
+                label, variant = tz_variants(tz)[0]
+                sets.append(("tz: %s (%s)" % (label, variant), lambda: daily_data(case["cls"], variant)[0]))
             original = constructor_made(cls, case) if case.get("tamper") is None and "base" in case else M
             o["original"] = "constructor" if original is not M else "from_dict"
             o["rt"] = roundtrip_obs(cls, original, sets, {"ignore_disqualification": True})[0]
